@@ -38,7 +38,9 @@ def c01Check (w : WF) : Bool := !w.isCircuit || semOK w.final
 def c03Check (w : WF) : Bool := w.isCircuit || semOK w.final
 
 /-- Everything the regenerated-tree obligations demand of one workflow. -/
+def noRaise (w : WF) : Bool := !w.final.crash
+
 def allCheck (w : WF) : Bool :=
-  c02Check w && structural w.final && c01Check w && c03Check w
+  c02Check w && structural w.final && c01Check w && c03Check w && noRaise w
 
 end BqVerif.Pipeline
